@@ -560,7 +560,7 @@ LEDGER_NAMES = {
     "mdef": {"bin_mdef.c:m", "bin_mdef.c:m->ciname", "bin_mdef.c:m->sseq", "bin_mdef.c:m->cd2cisen", "bin_mdef.c:m->sen2cimap",
              "bin_mdef.c:m->ciname[0]"},
     "am": {"ptm_mgau.c:s", "ms_gauden.c:g", "ptm_mgau.c:*out_mixw", "ptm_mgau.c:pdf", "ptm_mgau.c:s->sen2cb", "ptm_mgau.c:s->hist",
-           "ptm_mgau.c:s->hist[i].topn", "ptm_mgau.c:s->hist[i].mgau_active"},
+           "ptm_mgau.c:s->replay", "ptm_mgau.c:hist[i].topn", "ptm_mgau.c:hist[i].mgau_active"},
 }
 
 
